@@ -164,10 +164,21 @@ def build_random_table(bins, cfgs, mode, variant='rand'):
             f.write(body)
     with open(os.path.join(ROOT, 'harness', 'Cargo.toml')) as f:
         ct = f.read().replace('path = "../.build/repo"', 'path = "%s"' % repo_path())
-    with open(os.path.join(d, 'Cargo.toml'), 'w') as f:
-        f.write(ct)
+    # a package name of its own: the private crates of different properties share one target directory, and cargo derives the artifact hash of
+    # the library from the package name - with the same name they would overwrite each other's rlib (different tables, same file name)
+    pkg = 'bnum-verif-harness-%s-%s' % (variant, '-'.join(bins))
+    ct = ct.replace('name = "bnum-verif-harness"', 'name = "%s"' % pkg, 1).replace('[dependencies]', '[lib]\nname = "bnum_verif_harness"\npath = "src/lib.rs"\n\n[dependencies]', 1)
+    ctp = os.path.join(d, 'Cargo.toml')
+    if not os.path.exists(ctp) or open(ctp).read() != ct:
+        with open(ctp, 'w') as f:
+            f.write(ct)
     import shutil
-    shutil.copy(os.path.join(ROOT, 'harness', 'Cargo.lock'), os.path.join(d, 'Cargo.lock'))
+    lock = os.path.join(d, 'Cargo.lock')
+    if not os.path.exists(lock):
+        with open(os.path.join(ROOT, 'harness', 'Cargo.lock')) as f:
+            lt = f.read().replace('name = "bnum-verif-harness"', 'name = "%s"' % pkg)
+        with open(lock, 'w') as f:
+            f.write(lt)
     cmd = ['cargo', 'build', '--offline', '--manifest-path', os.path.join(d, 'Cargo.toml')] + (['--release'] if mode == 'rel' else [])
     for b in bins:
         cmd += ['--bin', b]
